@@ -116,6 +116,12 @@ func buildWorker(race bool) (string, error) {
 		out += "-race"
 		args = append(args, "-race")
 	}
+	if os.Getenv("VERIF_COVER") != "" {
+		// development aid (bin/coverage.sh): statement coverage of jig/lisp under the workloads, written to $GOCOVERDIR
+		// by every worker that exits normally; registered checks never set this
+		out += "-cover"
+		args = append(args, "-cover", "-coverpkg=github.com/jig/lisp/...,verifharness/cmd/vcheck")
+	}
 	if alt := os.Getenv("VERIF_REPO_DIR"); alt != "" {
 		// development aid (seeded-change runs): build against a scratch copy of the repository instead of /repo,
 		// so that /repo itself is never touched; registered checks never set this
@@ -422,18 +428,29 @@ func runShard(p *Property, bin, tier string, seed int64, sr *shardRun, nsh int, 
 		if only != "" {
 			args = append(args, "--only", only)
 		}
-		cmd := exec.Command(bin, args...)
-		cmd.Env = append(os.Environ(), goEnv...)
-		if p.Race {
-			cmd.Env = append(cmd.Env, "GORACE=halt_on_error=0 log_path="+filepath.Join(work, "race.log")+" history_size=2")
-		}
-		so, _ := os.Create(base + ".stdout")
-		se, _ := os.Create(base + ".stderr")
-		cmd.Stdout, cmd.Stderr = so, se
-		if err := cmd.Start(); err != nil {
+		var cmd *exec.Cmd
+		var so, se *os.File
+		var startErr error
+		// a worker that cannot be started (ETXTBSY while another process is still writing or forking next to the
+		// binary, EAGAIN under load) says nothing about the property: retried, then reported as inconclusive
+		for try := 0; try < 8; try++ {
+			cmd = exec.Command(bin, args...)
+			cmd.Env = append(os.Environ(), goEnv...)
+			if p.Race {
+				cmd.Env = append(cmd.Env, "GORACE=halt_on_error=0 log_path="+filepath.Join(work, "race.log")+" history_size=2")
+			}
+			so, _ = os.Create(base + ".stdout")
+			se, _ = os.Create(base + ".stderr")
+			cmd.Stdout, cmd.Stderr = so, se
+			if startErr = cmd.Start(); startErr == nil {
+				break
+			}
 			so.Close()
 			se.Close()
-			sr.crashes = append(sr.crashes, Violation{Key: "worker-start", What: err.Error(), Shard: sr.shard})
+			time.Sleep(time.Duration(200*(try+1)) * time.Millisecond)
+		}
+		if startErr != nil {
+			sr.notes = append(sr.notes, fmt.Sprintf("shard %d: worker could not be started: %v", sr.shard, startErr))
 			return
 		}
 		done := make(chan error, 1)
